@@ -93,10 +93,10 @@ def child_main(args) -> int:
                     kernel.count(f"logging:format-error:{type(e).__name__}")
                 kernel.LOG.counters["logging:debug-records-formatted"] += 1
 
-        lg = logging.getLogger("y0")
+        # (the root logger: some y0 modules name their logger after __file__, outside the "y0" hierarchy)
+        lg = logging.getLogger()
         lg.setLevel(logging.DEBUG)
         lg.addHandler(_Sink())
-        lg.propagate = False
         kernel.count("logging:debug-enabled-shards")
     try:
         mod.run_shard(ctx)
